@@ -342,3 +342,185 @@ Example C01_lazy_intermediate_flagged_ok :
   hist_ok op_reach_ok w_sc (new w_sc 11)
     [OBase (OGet [] 0); OBase (OSet [0%nat] 0 (PMsg (new w_sc 13))); OBase (OSet [0%nat; 0%nat] 0 (PInt 0))] = true.
 Proof. exact lazy_intermediate_flagged_ok. Qed.
+
+From BP Require Import Model.C01Parse Proofs.C01Reach2B Proofs.C01Reach2Wit.
+
+(* ---- layer 6: m.parse(bytes) on an existing, possibly USED object is discharged.  [clean_bytes sc c bs]
+        (Model/C01Parse.v) is a decidable condition on the class and the bytes alone - it never looks at the object parsed
+        into, nor at a result state: walking the stream as Message.load does, every record names a declared field with
+        a fitting wire type (so nothing is kept as unknown bytes) and the value the decoder computes for that record
+        alone (nested payloads are parsed into fresh objects) is a value of the field: inside the declared range after
+        the decoder's own truncation, every message in it clean at every depth (no unknown bytes in nested payloads),
+        a message value flagged (always so: mark_sow).  A stream the reader rejects is vacuously clean (parse raises, no
+        new state).  Under it the merge parse performs - repeated fields and packed payloads append, map entries
+        update the dict (keys stay distinct), a singular field / oneof member / sub-message is replaced through
+        __setattr__ (siblings of a oneof member reset; the except-branch assignment of the default for an unselected
+        member included) - keeps c01_value_ok, and keeps sow_ok with NO further condition.
+        [op_value_ok_p] / [op_sow_ok_p] / [op_reach_ok_p] are op_value_ok / op_sow_ok / op_reach_ok with the OParse
+        case replaced (clean_bytes / true); on histories without parse they coincide (C01_conditions_agree_static), so
+        the theorems of layer 5 are instances, not weakened. *)
+Theorem C01_parse_keeps : forall sc o bs o',
+  c01_schema_ok sc = true -> c01_value_ok sc o = true -> clean_bytes sc (ocls o) bs = true ->
+  parse_into sc o bs = Ok o' ->
+  c01_value_ok sc o' = true /\ (sow_ok sc o = true -> sow_ok sc o' = true) /\ ocls o' = ocls o.
+Proof. exact c01_parse_keeps. Qed.
+Print Assumptions C01_parse_keeps.
+
+Theorem C01_reachable_value_ok_parse : forall sc c ops o,
+  c01_schema_ok sc = true -> hist_ok op_value_ok_p sc (new sc c) ops = true ->
+  run7 sc (new sc c) ops = Ok o -> c01_value_ok sc o = true.
+Proof. exact c01_reachable_value_ok_parse. Qed.
+Print Assumptions C01_reachable_value_ok_parse.
+
+Theorem C01_reachable_sow_ok_parse : forall sc c ops o,
+  c01_schema_ok sc = true -> hist_ok op_reach_ok_p sc (new sc c) ops = true ->
+  run7 sc (new sc c) ops = Ok o -> c01_value_ok sc o = true /\ sow_ok sc o = true.
+Proof. exact c01_reachable_sow_ok_parse. Qed.
+Print Assumptions C01_reachable_sow_ok_parse.
+
+Theorem C01_run_keeps_parse : forall sc ops o o',
+  c01_schema_ok sc = true -> c01_value_ok sc o = true -> sow_ok sc o = true ->
+  hist_ok op_reach_ok_p sc o ops = true -> run7 sc o ops = Ok o' -> c01_value_ok sc o' = true /\ sow_ok sc o' = true.
+Proof. exact c01_run_keeps_parse. Qed.
+Print Assumptions C01_run_keeps_parse.
+
+Theorem C01_roundtrip_reachable_parse : forall sc c ops m,
+  c01_schema_ok sc = true -> hist_ok op_reach_ok_p sc (new sc c) ops = true -> run7 sc (new sc c) ops = Ok m ->
+  exists bs, enc_obj sc m = Ok bs /\
+    (Zlength bs < 2 ^ 64 ->
+     exists m', parse sc (ocls m) bs = Ok m' /\ m' = norm_obj sc m /\
+       (deep nan_free (PMsg m) = true -> obj_eq sc m m' = true) /\
+       (forall g, which_one_of m' g = which_one_of m g) /\
+       obs_top sc m m' = true /\
+       enc_obj sc m' = Ok bs).
+Proof. exact c01_roundtrip_reachable_parse. Qed.
+Print Assumptions C01_roundtrip_reachable_parse.
+
+(* without parse the new conditions ARE the old ones *)
+Theorem C01_conditions_agree_static : forall sc ops o,
+  forallb op_static ops = true -> hist_ok op_reach_ok_p sc o ops = hist_ok op_reach_ok sc o ops.
+Proof. intros sc ops o H. apply hist_ok_static. exact H. Qed.
+Print Assumptions C01_conditions_agree_static.
+
+(* ---- each clause of clean_bytes is needed: bytes that fail exactly it, parsed into Cls() ---- *)
+(* a field number the class does not declare *)
+Theorem C01_parse_unknown_field_refuted :
+  exists sc c bs m,
+    c01_schema_ok sc = true /\ clean_bytes sc c bs = false /\
+    run7 sc (new sc c) [OBase (OParse bs)] = Ok m /\ ounk m = bs /\ no_unknown m = false /\ c01_value_ok sc m = false.
+Proof. exact parse_unknown_field_refuted. Qed.
+Print Assumptions C01_parse_unknown_field_refuted.
+
+(* a declared number with a wire type that does not fit (int32 field, wire type 5) *)
+Theorem C01_parse_misfit_refuted :
+  exists sc c bs m,
+    c01_schema_ok sc = true /\ clean_bytes sc c bs = false /\
+    run7 sc (new sc c) [OBase (OParse bs)] = Ok m /\ ounk m = bs /\ no_unknown m = false /\ c01_value_ok sc m = false.
+Proof. exact parse_misfit_refuted. Qed.
+Print Assumptions C01_parse_misfit_refuted.
+
+(* a fitting record whose nested payload carries an unknown field: the top level is fine, m.a holds the bytes *)
+Theorem C01_parse_nested_unknown_refuted :
+  exists sc c bs m,
+    c01_schema_ok sc = true /\ clean_bytes sc c bs = false /\
+    run7 sc (new sc c) [OBase (OParse bs)] = Ok m /\ no_unknown m = true /\ in_range sc m = true /\
+    c01_value_ok sc m = false.
+Proof. exact parse_nested_unknown_refuted. Qed.
+Print Assumptions C01_parse_nested_unknown_refuted.
+
+(* a 5-byte varint in a uint32 field: unsigned fields are not truncated by the decoder *)
+Theorem C01_parse_out_of_range_refuted :
+  exists sc c bs m,
+    c01_schema_ok sc = true /\ clean_bytes sc c bs = false /\
+    run7 sc (new sc c) [OBase (OParse bs)] = Ok m /\ no_unknown m = true /\ in_range sc m = false /\
+    c01_value_ok sc m = false.
+Proof. exact parse_out_of_range_refuted. Qed.
+Print Assumptions C01_parse_out_of_range_refuted.
+
+(* ---- non-vacuity: the twelve operations of ex_hist, then a parse INTO THE USED OBJECT whose nine records hit every
+        merge path (singular overwrite, oneof member c - resets d -, packed append, unpacked append, map update with a
+        nested message, sub-message replacement, wrapper, Timestamp, the sibling member d - resets c again), a read, and
+        a second parse that appends an empty string ---- *)
+Definition ex_bytes : list byte :=
+  [x08; x03;                                     (* a = -2 *)
+   x1a; x01; x79;                                (* c = "y" *)
+   x3a; x04; x01; x00; x00; x00;                 (* g += [1] (packed fixed32) *)
+   x42; x01; x7a;                                (* h += ["z"] *)
+   x4a; x07; x0a; x01; x6b; x12; x02; x08; x01;  (* i["k"] = Cls(a = -1) *)
+   x12; x02; x08; x05;                           (* b = Cls(a = -3) *)
+   x32; x02; x08; x07;                           (* f = Int32Value(7) *)
+   xfa; x7f; x02; x08; x01;                      (* j = Timestamp(seconds = 1) *)
+   x20; x01].                                    (* d = 1 *)
+Definition ex_hist_parse : list op7 :=
+  ex_hist ++ [OBase (OParse ex_bytes); OBase (OGet [1%nat] 0); OBase (OParse [x42; x00])].
+Example C01_reachable_parse_nonvacuous :
+  clean_bytes ex_schema 11 ex_bytes = true /\
+  hist_ok op_reach_ok_p ex_schema (new ex_schema 11) ex_hist_parse = true /\
+  forallb op_static ex_hist_parse = false /\
+  match run7 ex_schema (new ex_schema 11) ex_hist, run7 ex_schema (new ex_schema 11) ex_hist_parse with
+  | Ok o0, Ok o => c01_value_ok ex_schema o0 = true /\ osow o0 = true /\        (* a used object is parsed into *)
+            c01_value_ok ex_schema o = true /\ sow_ok ex_schema o = true /\ c01_holds ex_schema o = true /\
+            which_one_of o0 0 = Some 3%nat /\ which_one_of o 0 = Some 3%nat /\ read ex_schema o0 3 = Ok (PInt (-1)) /\ read ex_schema o 3 = Ok (PInt 1) /\
+            read ex_schema o 6 = Ok (PList [PInt 4294967295; PInt 1]) /\
+            read ex_schema o 7 = Ok (PList [PStr [x7a]; PStr []])
+  | _, _ => False
+  end.
+Proof. vm_compute. repeat split; reflexivity || lia || (repeat constructor). Qed.
+
+From BP Require Import Model.C01Deep Proofs.C01Reach2C Proofs.C01Reach2D.
+
+(* the [flagged] clause of dec_ok (a decoded message value carries its flag) never fails on what the decoder computes for
+   a singular field: given the other clause it is implied, so clean_bytes excludes nothing through it (there is no
+   _refuted witness for it because there is no such input) *)
+Theorem C01_clean_flag_clause_redundant : forall fuel' sc n f p v,
+  wf_field sc n f = true -> decode_value fuel' sc f p = Ok v ->
+  dec_ok sc f v = match fhint f with HPlain _ | HOptional _ => val_ok sc f v | _ => dec_ok sc f v end.
+Proof. exact dec_ok_without_flag. Qed.
+Print Assumptions C01_clean_flag_clause_redundant.
+
+(* ---- layer 7: the observers at EVERY depth.  [obs_deep] (Model/C01Deep.v) is obs_top applied to the two messages and
+        recursively to every pair of nested message values (singular attributes, list items, map values).
+        PARTIAL: proved for every message that satisfies, besides the hypotheses of C01_roundtrip, two decidable
+        conditions on the value itself: [deep_sow_ok] (sow_ok at every nested message) and [deep_mapvals_emit] (no
+        message held as a map value encodes to nothing - such a value is dropped from its entry and comes back as a
+        fresh instance).  MISSING: (1) deep_sow_ok is not yet shown to be an invariant of the operation model (sow_ok
+        of the top-level object is: C01_reachable_sow_ok_parse; at depth it additionally needs the values handed in to
+        be deep_sow_ok themselves and one nested induction per operation); (2) deep_mapvals_emit is sufficient, not
+        shown necessary: dropping it needs `enc_obj o = Ok [] -> obs_top o (new (ocls o))`, no refuting witness is
+        known. *)
+Theorem C01_observers_agree_deep_partial : forall sc m,
+  c01_schema_ok sc = true -> c01_value_ok sc m = true ->
+  deep_sow_ok sc m = true -> deep_mapvals_emit sc m = true ->
+  obs_deep sc (PMsg m) (PMsg (norm_obj sc m)) = true.
+Proof. exact c01_observers_agree_deep. Qed.
+Print Assumptions C01_observers_agree_deep_partial.
+
+(* for a reachable object (parse included): the two conditions are evaluated on the state reached *)
+Theorem C01_observers_deep_reachable_partial : forall sc c ops m,
+  c01_schema_ok sc = true -> hist_ok op_value_ok_p sc (new sc c) ops = true -> run7 sc (new sc c) ops = Ok m ->
+  deep_sow_ok sc m = true -> deep_mapvals_emit sc m = true ->
+  exists bs, enc_obj sc m = Ok bs /\
+    (Zlength bs < 2 ^ 64 ->
+     exists m', parse sc (ocls m) bs = Ok m' /\ m' = norm_obj sc m /\ obs_deep sc (PMsg m) (PMsg m') = true).
+Proof.
+  intros sc c ops m Hs Hh E Hw Hm. pose proof (c01_reachable_value_ok_parse sc c ops m Hs Hh E) as Hv.
+  destruct (c01_roundtrip sc m Hs Hv) as (bs & Eb & Hrest). exists bs. split; [exact Eb|]. intros Hsm.
+  destruct (Hrest Hsm) as (m' & Hp & Hn & _). exists m'. split; [exact Hp|]. split; [exact Hn|].
+  rewrite Hn. apply c01_observers_agree_deep; assumption.
+Qed.
+Print Assumptions C01_observers_deep_reachable_partial.
+
+(* non-vacuity: the object reached by ex_hist_parse (three levels of nested assignment, a map of messages, then the
+   parse into it) satisfies both conditions; obs_deep is not trivially true (it fails against Cls()).  ex_obj holds an
+   EMPTY message as a map value, so deep_mapvals_emit fails for it - obs_deep holds nevertheless (the condition is
+   sufficient, not known to be necessary) *)
+Example C01_deep_nonvacuous :
+  deep_sow_ok ex_schema ex_obj = true /\ deep_mapvals_emit ex_schema ex_obj = false /\
+  obs_deep ex_schema (PMsg ex_obj) (PMsg (norm_obj ex_schema ex_obj)) = true /\
+  match run7 ex_schema (new ex_schema 11) ex_hist_parse with
+  | Ok o => deep_sow_ok ex_schema o = true /\ deep_mapvals_emit ex_schema o = true /\
+            obs_deep ex_schema (PMsg o) (PMsg (norm_obj ex_schema o)) = true /\
+            obs_deep ex_schema (PMsg o) (PMsg (new ex_schema 11)) = false
+  | Err _ => False
+  end.
+Proof. vm_compute. repeat split; reflexivity. Qed.
